@@ -6,6 +6,7 @@ T=${1:-quick}
 cd /verif
 for D in seeded/C*/; do
   ID=$(basename $D)
+  [ -n "$SKIPLOG" ] && grep -q "^$ID: caught" "$SKIPLOG" && continue
   CHECKS=$(python3 -c "
 import json,re,sys
 m=json.load(open('$D/meta.json'))
